@@ -97,6 +97,25 @@ def enc_q(n, d):
     return {'t': 'num', 'n': fr.numerator, 'd': fr.denominator}
 
 
+def big_cmp_obs(lib, rng, n):
+    """integers no double can tell apart, as numbers on both sides of every comparison operator (Trace_Big)"""
+    out = []
+    p = lib.Parser()
+    sg = lambda v: {'neg': v < 0, 'ds': [ord(c) for c in str(abs(v))]}
+    for _ in range(n):
+        a = rng.choice([2 ** 53, 2 ** 53 + 1, 10 ** 17 + 1, rng.randint(2 ** 53, 2 ** 70), 10 ** 22 + 1]) * rng.choice([1, 1, -1])
+        b = rng.choice([a, a + 1, a - 1, a + 2, -a, rng.randint(-2 ** 70, 2 ** 70), a + rng.randint(-3, 3)])
+        op = rng.choice(['<', '>', '=', '<>', '<=', '>='])
+        p.set_variable('va', a)
+        p.set_variable('vb', b)
+        r = p.parse('va' + op + 'vb')
+        truth = 'TRUE' if r['error'] is None and r['result'] is True else 'FALSE' if r['error'] is None and r['result'] is False else 'other'
+        out.append({'kind': 'bigcmp', 'op': op, 'a': sg(a), 'b': sg(b), 'k': 0, 'truth': truth, 'formula': 'va' + op + 'vb',
+                    'out': {'int': False, 'neg': False, 'ds': [48]}, 'out2': {'int': False, 'neg': False, 'ds': [48]},
+                    'in': {'op': op, 'a': str(a), 'b': str(b)}})
+    return out
+
+
 def main(tier, replay=None):
     run = core.Run('C07', tier, keep_replays=bool(replay))
     lib = core.load_library()
@@ -143,5 +162,11 @@ def main(tier, replay=None):
         core.tally(run, part, v, 'c07', nontrivial=lambda o: o['in']['a'] != o['in']['b'],
                    key=lambda o: json.dumps([o['in'], o['mode'], o.get('kind', '')], sort_keys=True))
     run.exhaustive = True
+    big = big_cmp_obs(lib, random.Random(run.seed + 7), 400 if tier == 'quick' else 20000)
+    for n, o in enumerate(big, 1):
+        o['id'] = n
+    v = core.validate_obs(run, 'Trace_Big', big, 'big')
+    core.tally(run, big, v, 'c07-big')
+    run.extra['big_integer_comparisons'] = len(big)
     run.samples = [obs[7], obs[len(obs) // 2], obs[-1]]
     return run.finish()
